@@ -3,9 +3,10 @@ import RtenVerif.Lemmas.SymSimp
 /-!
 Side conditions of `simplify` stated on the **original** expression (C11, audit follow-up):
 `posDivisors` (every `DivCeil` divisor evaluates to a positive number) and `bcastDom` (every
-`Broadcast` node has operands `≥ 1` that are equal or one of them `1`).  Both are invariants
+`Broadcast` node has operands that are equal or one of them `1`).  Both are invariants
 of `canonicalize` and of `simplify_canonical`, hence they imply the internal `Guards`.
 -/
+set_option linter.unusedSimpArgs false
 namespace RtenVerif.Sym
 
 /-- Every `DivCeil` divisor of `e` evaluates (ideally) to a positive number. -/
@@ -15,12 +16,12 @@ def posDivisors (σ : Env) : SymExpr → Prop
   | .neg a => posDivisors σ a
   | _ => True
 
-/-- Every `Broadcast` node of `e` has operands `≥ 1`, equal or one of them `1`. -/
+/-- Every `Broadcast` node of `e` has operands that are equal or one of them `1` (the
+documented domain of the constructor; no sign condition is needed). -/
 def bcastDom (σ : Env) : SymExpr → Prop
   | .bin o a b =>
     bcastDom σ a ∧ bcastDom σ b ∧
-      (o = .broadcast → ∀ x y, ev σ a = .ok x → ev σ b = .ok y →
-        1 ≤ x ∧ 1 ≤ y ∧ (x = y ∨ x = 1 ∨ y = 1))
+      (o = .broadcast → ∀ x y, ev σ a = .ok x → ev σ b = .ok y → (x = y ∨ x = 1 ∨ y = 1))
   | .neg a => bcastDom σ a
   | _ => True
 
@@ -28,8 +29,7 @@ def bcastDom (σ : Env) : SymExpr → Prop
 def WF (σ : Env) : SymExpr → Prop
   | .bin o a b =>
     WF σ a ∧ WF σ b ∧ (o = .divCeil → ∀ y, ev σ b = .ok y → 0 < y) ∧
-      (o = .broadcast → ∀ x y, ev σ a = .ok x → ev σ b = .ok y →
-        1 ≤ x ∧ 1 ≤ y ∧ (x = y ∨ x = 1 ∨ y = 1))
+      (o = .broadcast → ∀ x y, ev σ a = .ok x → ev σ b = .ok y → (x = y ∨ x = 1 ∨ y = 1))
   | .neg a => WF σ a
   | _ => True
 
@@ -245,9 +245,9 @@ theorem flatten_bq {σ : Env} : ∀ (e : SymExpr) (v : Int), WF σ e → ev σ e
     · rename_i ho; subst ho
       rw [ev_bin_ok'] at hv
       obtain ⟨x, y, hx, hy, -, rfl⟩ := hv
-      obtain ⟨hx1, hy1, hc⟩ := h.2.2.2 rfl x y hx hy
+      have hc := h.2.2.2 rfl x y hx hy
       rw [List.mem_append] at ht
-      simp only [opF]
+      simp only [opF, bcastI]
       rcases ht with ht | ht
       · obtain ⟨hw, w, hw1, hw2⟩ := iha x h.1 hx t ht
         refine ⟨hw, w, hw1, ?_⟩
@@ -257,7 +257,7 @@ theorem flatten_bq {σ : Env} : ∀ (e : SymExpr) (v : Int), WF σ e → ev σ e
         split <;> omega
     · simp at ht; subst ht; exact ⟨h, v, hv, .inr rfl⟩
 
-theorem foldl_wf_bcast {σ : Env} {v : Int} (hv : 1 ≤ v) :
+theorem foldl_wf_bcast {σ : Env} {v : Int} :
     ∀ (ts : List SymExpr) (acc : SymExpr), BQ σ v acc → (∀ t ∈ ts, BQ σ v t) →
       WF σ (ts.foldl (fun acc u => .bin .broadcast acc u) acc) := by
   intro ts
@@ -277,15 +277,15 @@ theorem foldl_wf_bcast {σ : Env} {v : Int} (hv : 1 ≤ v) :
         simp at hx' hy'; subst hx' hy'
         omega
     · exact ev_bin_ok'.mpr ⟨x, y, hx, hy, by simp, rfl⟩
-    · simp only [opF]; split <;> omega
+    · simp only [opF, bcastI]; split <;> omega
 
-theorem reduce_wf_bcast {σ : Env} {v : Int} (hv : 1 ≤ v) {d : SymExpr} (hd : WF σ d)
+theorem reduce_wf_bcast {σ : Env} {v : Int} {d : SymExpr} (hd : WF σ d)
     {ts : List SymExpr} (h : ∀ t ∈ ts, BQ σ v t) : WF σ (reduceOp .broadcast d ts) := by
   cases ts with
   | nil => simpa [reduceOp] using hd
   | cons t ts =>
     simp only [reduceOp]
-    exact foldl_wf_bcast hv ts t (h t List.mem_cons_self)
+    exact foldl_wf_bcast ts t (h t List.mem_cons_self)
       (fun u hu => h u (List.mem_cons_of_mem _ hu))
 
 /-! ### canonicalize keeps the side conditions -/
@@ -338,13 +338,7 @@ theorem canonF_wf (σ : Env) :
         (fun t ht => leaves .min rfl a b hw hv t (isort_mem.mp (removeAdjEq_mem ht)))
     | .bin .broadcast a b, hw, hv =>
       simp only [canonF]
-      have hv1 : 1 ≤ v := by
-        have hv' := hv
-        rw [ev_bin_ok'] at hv'
-        obtain ⟨x, y, hx, hy, -, rfl⟩ := hv'
-        have := hw.2.2.2 rfl x y hx hy
-        simp only [opF]; split <;> omega
-      refine reduce_wf_bcast hv1 (wf_value σ _) ?_
+      refine reduce_wf_bcast (v := v) (wf_value σ _) ?_
       intro t ht
       have ht' := isort_mem.mp (removeAdjEq_mem ht)
       rw [List.mem_map] at ht'
